@@ -128,3 +128,18 @@ Definition all_stored_b (t : tree Z) (stored : list nat) : bool :=
   | Node r [(_, Leaf l _)] => mem r stored
   | _ => forallb (fun i => mem i stored) (ids Z t)
   end.
+
+(* boolean forms of the three store facts assumed by C04_commit_partial, checked on every real commit *)
+Definition no_stray_b (t : tree Z) (st : list nat) (s : store Z) : bool :=
+  forallb (fun i => mem i st || match sget Z s i with None => true | Some _ => false end) (ids Z t).
+Definition refs_closed_b (t : tree Z) (p : pstate) : bool :=
+  forallb (fun i => match find_node Z t i with
+                    | Some n => negb (mem i (p_stored p)) || mem i (p_changed p) ||
+                                forallb (fun x => mem x (p_stored p)) (refs Z (getstate Z (p_stored p) t n))
+                    | None => true
+                    end) (ids Z t).
+Definition dumps_ok_b (t : tree Z) (st : list nat) (seq : list nat) : bool :=
+  match t with
+  | Node _ [(_, Leaf l _)] => negb (mem l seq) || mem l st
+  | _ => true
+  end.
